@@ -133,6 +133,29 @@ pub fn emit(tier: &str, seed: u64, path: &str) -> Report {
                 }
             }
         }
+        // ONE core builder object sealed from several times (configured once): every token must be the specification's token
+        // for the configured (message, footer, assertion), not only the first
+        for k in 0..(match (p, thorough) { (P::V1P | P::V3P, false) => 2, (_, false) => 8, (P::V1P | P::V3P, true) => 30, (_, true) => 300 }) {
+            let key = pools.key(p, k % pools.count(p));
+            let n = 2 + k % 3;
+            let nonces: Vec<Vec<u8>> = (0..n).map(|j| if p == P::V2L && (j + k) % 2 == 1 { rng.bytes(24) } else { rng.bytes(32) }).collect();
+            let msg = gens::utf8_of_len([0usize, 5, 16, 33, 100, 1000][k % 6], &mut rng);
+            let footer = opt_cat(&mut rng, k + 1);
+            let ia = if p.has_assertion() { opt_cat(&mut rng, k / 2 + k + 3) } else { None };
+            let outs = core_seal_many(p, &key, &nonces, &msg, footer.as_deref(), ia.as_deref(), false);
+            for (nonce, out) in nonces.iter().zip(outs.into_iter()) {
+                r.evaluations += 1;
+                id += 1;
+                let rec = json!({"id": id, "layer": "core", "p": p.name(), "key": key, "nonce": util::hex(nonce), "msg": msg, "footer": footer, "ia": ia,
+                    "token": out.clone().ok(), "error": match &out { Out::Ok(_) => None, o => Some(o.brief()) }});
+                line(&mut f, rec);
+                if out.is_ok() {
+                    r.count(&format!("{} core tokens emitted from ONE core builder", p.name()));
+                } else {
+                    r.violation(format!("C08 seal-failed {}", p.name()), format!("{}: the library failed to produce a token from a core builder used before: {}", p.name(), out.brief()), json!({"cmd": "C08", "note": "seal failure", "p": p.name()}));
+                }
+            }
+        }
         // builder-produced tokens (random internal nonce): the reference must be able to open them; footer presence rule
         let nb = match (p, thorough) {
             (P::V1P | P::V3P, false) => 12,
